@@ -8,6 +8,10 @@ package main
 //	    (e.g. the random bytes are read before they are encoded)
 //	    (a call of calleeB inside a closure that <func> defers counts as
 //	    happening at each return of <func>)
+//	apart <func> <calleeA> <calleeB> [props=..]
+//	    no value is an argument of both a call of calleeA and a call of calleeB
+//	    in <func> (e.g. what is given to an HTTP request as its body is never
+//	    handed to a pool: the library may still be reading it)
 //	frozen <pkg.Type>.<field> [props=..]
 //	    no function of the repository stores to that field (e.g. the remote
 //	    address of a request, which the authentication decision reads)
@@ -54,7 +58,7 @@ func flowOrderClauses(w *World, prop string) []*Obligation {
 	for _, pp := range pkgPaths {
 		rel := strings.TrimPrefix(pp, repoMod+"/")
 		for _, g := range w.files[pp].Guards {
-			if !hasProp(g.Props, prop) || (g.Kind != "before" && g.Kind != "detached" && g.Kind != "frozen") {
+			if !hasProp(g.Props, prop) || (g.Kind != "before" && g.Kind != "detached" && g.Kind != "frozen" && g.Kind != "apart") {
 				continue
 			}
 			if g.Kind == "frozen" {
@@ -67,6 +71,72 @@ func flowOrderClauses(w *World, prop string) []*Obligation {
 				continue
 			}
 			switch g.Kind {
+			case "apart":
+				a, b := g.Fields[0], g.Fields[1]
+				root := func(v ssa.Value) ssa.Value {
+					for {
+						switch x := v.(type) {
+						case *ssa.MakeInterface:
+							v = x.X
+						case *ssa.ChangeType:
+							v = x.X
+						case *ssa.ChangeInterface:
+							v = x.X
+						case *ssa.Convert:
+							v = x.X
+						default:
+							return v
+						}
+					}
+				}
+				ok, detail := true, ""
+				for _, f := range anonClosure(fn) {
+					// everything derived from a value that is given to calleeB
+					derived := map[ssa.Value]bool{}
+					for _, blk := range f.Blocks {
+						for _, ins := range blk.Instrs {
+							if c, isCall := ins.(ssa.CallInstruction); isCall && calleeMatches(calleeName(c.Common()), b) {
+								for _, arg := range c.Common().Args {
+									if _, isConst := root(arg).(*ssa.Const); !isConst {
+										derived[root(arg)] = true
+									}
+								}
+							}
+						}
+					}
+					for changed := true; changed; {
+						changed = false
+						for _, blk := range f.Blocks {
+							for _, ins := range blk.Instrs {
+								v, isVal := ins.(ssa.Value)
+								if !isVal || derived[v] {
+									continue
+								}
+								var ops []*ssa.Value
+								for _, o := range ins.Operands(ops) {
+									if *o != nil && derived[root(*o)] {
+										derived[v] = true
+										changed = true
+										break
+									}
+								}
+							}
+						}
+					}
+					for _, blk := range f.Blocks {
+						for _, ins := range blk.Instrs {
+							if c, isCall := ins.(ssa.CallInstruction); isCall && calleeMatches(calleeName(c.Common()), a) {
+								for _, arg := range c.Common().Args {
+									if derived[root(arg)] {
+										ok = false
+										detail += fmt.Sprintf("a value given to %s is (derived from) a value given to %s: %s\n", a, b, srcLine(w, f, insPos(ins)))
+									}
+								}
+							}
+						}
+					}
+				}
+				obls = append(obls, flowObl(prop, rel+"."+g.Func+":apart["+a+","+b+"]", "no value is given both to "+a+" and to "+b, ok, detail))
 			case "before":
 				a, b := g.Fields[0], g.Fields[1]
 				ok, detail, nB := true, "", 0
